@@ -403,7 +403,7 @@ func TestVerifC28(t *testing.T) {
 	for _, s := range settings {
 		r.SetAdd("settings", s.String())
 	}
-	n := vcommon.Scale(700, 60000)
+	n := vcommon.Scale(700, 20000)
 	sc := newScratch()
 	r.Cases(n, func(i int, rng *rand.Rand) {
 		sc.reset()
@@ -689,7 +689,7 @@ func TestVerifC28Block(t *testing.T) {
 	for k := range blockkind.All() {
 		kinds = append(kinds, k)
 	}
-	n := vcommon.Scale(260, 24000)
+	n := vcommon.Scale(260, 8000)
 	ctx := context.Background()
 	sc := newScratch()
 	fileBuf := make([]byte, 0, 8<<20)
